@@ -31,6 +31,11 @@ def to_engine(v):
             return SUUID(R.Rope.lit(bytes.fromhex(v["hex"])))
         if t == "list":
             return [to_engine(x) for x in v["items"]]
+        if t == "reader":
+            from pyvc.values import SObj
+
+            view = SBytes(R.Rope.lit(bytes.fromhex(v["hex"])), "memoryview")
+            return SObj(_G["P"].find_class("ASN1Reader"), {"_data": view, "_view": view})
     return v
 
 
@@ -83,7 +88,7 @@ def _init(repo):
 def _one(case):
     from pyvc.interp import Interp
     from pyvc.path import PathCtx
-    from pyvc.values import Coro, OutOfReach, PathEnd, PyRaise
+    from pyvc.values import Coro, OutOfReach, PathEnd, PyRaise, SObj
 
     P, REG = _G["P"], _G["REG"]
     ctx = PathCtx([], axioms=())
@@ -103,7 +108,11 @@ def _one(case):
             r = r.value
         if case.get("then"):
             r = I.call_value(I.getattr(r, case["then"]), [], {})
-        return {"kind": "return", "value": norm_engine(I, r)}
+        out = norm_engine(I, r)
+        readers = [x for x in args if isinstance(x, SObj) and x.cls.name == "ASN1Reader"]
+        if readers:
+            out = [out, norm_engine(I, readers[0].fields["_view"])]  # the value and what the reader has left
+        return {"kind": "return", "value": out}
     except PyRaise as e:
         return {"kind": "raise", "type": e.exc.type_name.split(":")[-1].split(".")[-1], "mro": [n.split(":")[-1].split(".")[-1] for n in e.exc.mro]}
     except OutOfReach as e:
